@@ -377,8 +377,12 @@ func (s *statsManager) decInflight(clientID string, delta uint64) {
 	// Avoid the counter to be negative.
 	// This could happen if the broker is start with persistence data loaded and send messages from the persistent queue.
 	// Because the statistic data is not persistent, the init value is always 0.
-	if atomic.LoadUint64(&sts.MessageStats.InflightCurrent) == 0 {
+	cur := atomic.LoadUint64(&sts.MessageStats.InflightCurrent)
+	if cur == 0 {
 		return
+	}
+	if delta > cur {
+		delta = cur
 	}
 	atomic.AddUint64(&sts.MessageStats.InflightCurrent, ^uint64(delta-1))
 	atomic.AddUint64(&s.totalStats.MessageStats.InflightCurrent, ^uint64(delta-1))
@@ -398,8 +402,12 @@ func (s *statsManager) decQueueLen(clientID string, delta uint64) {
 	// Avoid the counter to be negative.
 	// This could happen if the broker is start with persistence data loaded and send messages from the persistent queue.
 	// Because the statistic data is not persistent, the init value is always 0.
-	if atomic.LoadUint64(&sts.MessageStats.QueuedCurrent) == 0 {
+	cur := atomic.LoadUint64(&sts.MessageStats.QueuedCurrent)
+	if cur == 0 {
 		return
+	}
+	if delta > cur {
+		delta = cur
 	}
 	atomic.AddUint64(&sts.MessageStats.QueuedCurrent, ^uint64(delta-1))
 	atomic.AddUint64(&s.totalStats.MessageStats.QueuedCurrent, ^uint64(delta-1))
